@@ -334,6 +334,7 @@ class FuncInfo:
                     s.defs[ins.res] = ins
         s._escape()
         s._int_pointee()
+        s._ptrlike()
 
     # -- which allocas never escape the thread
     def base_alloca(s, v, seen=None):
@@ -527,3 +528,67 @@ class FuncInfo:
                         if a not in s.int_pointee and isinstance(ins.ty, PtrT) and s._interesting(ins.ty.to):
                             s.int_pointee[a] = ins.ty.to
                             changed = True
+
+    # -- i64 registers that may carry a pointer value: they are declared as C pointers so that CBMC's
+    #    points-to tracking is never routed through an integer variable (an integer-typed carrier silently
+    #    degrades a later dereference to CBMC's integer-address memory, i.e. the store is lost)
+    def _asm_mem_is_ptr_slot(s, ins):
+        for a in ins.args:
+            if isinstance(value_type(s.mod, a), PtrT):
+                return s.slot_type(a, IntT(64)) is not None
+        return False
+
+    def _ptrlike(s):
+        P = set(s.int_pointee)
+
+        def is64(t):
+            return isinstance(t, IntT) and t.bits == 64
+
+        def add(v):
+            if isinstance(v, Reg) and v.name not in P and is64(s.f.regtypes.get(v.name, v.ty)):
+                P.add(v.name); return True
+            return False
+        changed = True
+        it = 0
+        while changed and it < 50:
+            changed = False; it += 1
+            for b in s.f.blocks:
+                for ins in b.instrs:
+                    op = ins.op
+                    if op == 'ptrtoint' and ins.res is not None and is64(ins.ty) and ins.res not in P:
+                        P.add(ins.res); changed = True
+                    elif op == 'inttoptr':
+                        changed |= add(ins.args[0])
+                    elif op == 'load' and is64(ins.ty) and ins.res not in P and s.slot_type(ins.args[0], ins.ty) is not None:
+                        P.add(ins.res); changed = True
+                    elif op == 'store' and is64(ins.args[0].ty) and s.slot_type(ins.args[1], ins.args[0].ty) is not None:
+                        changed |= add(ins.args[0])
+                    elif op == 'call' and isinstance(ins.x['callee'], InlineAsm):
+                        if s._asm_mem_is_ptr_slot(ins):
+                            if ins.res is not None and is64(ins.ty) and ins.res not in P:
+                                P.add(ins.res); changed = True
+                            for a in ins.args:
+                                if is64(a.ty):
+                                    changed |= add(a)
+                    elif op in ('atomicrmw', 'cmpxchg'):
+                        vt = ins.args[1].ty
+                        if is64(vt) and s.slot_type(ins.args[0], vt) is not None:
+                            for a in ins.args[1:]:
+                                changed |= add(a)
+                            if op == 'atomicrmw' and ins.res not in P:
+                                P.add(ins.res); changed = True
+                    elif op == 'extractvalue' and ins.res not in P and is64(ins.ty) and isinstance(ins.args[0], Reg):
+                        d = s.defs.get(ins.args[0].name)
+                        if d is not None and d.op == 'cmpxchg' and ins.x['idx'] == [0] and \
+                                s.slot_type(d.args[0], d.args[1].ty) is not None:
+                            P.add(ins.res); changed = True
+                    elif op in ('phi', 'select', 'and', 'or', 'xor', 'add', 'sub', 'freeze') and is64(ins.ty):
+                        srcs = [v for v, _ in ins.x['incoming']] if op == 'phi' else \
+                            (ins.args[1:] if op == 'select' else ins.args)
+                        if ins.res in P:
+                            for v in srcs:
+                                changed |= add(v)
+                        elif any(isinstance(v, Reg) and v.name in P for v in srcs) or \
+                                any(isinstance(v, CExpr) and v.op == 'ptrtoint' for v in srcs):
+                            P.add(ins.res); changed = True
+        s.ptrlike = P
